@@ -547,7 +547,8 @@ fn check_characteristic_common(
         for (idx, axis_descr) in characteristic.axis_descr().iter().enumerate() {
             if axis_descr.attribute == AxisDescrAttribute::StdAxis {
                 // an STD_AXIS must be described by the record layout - should this also apply to CURVE_AXIS?
-                if let Some(axis_pts_dim) = axis_refs[idx] {
+                // there are only five AXIS_PTS_* entries, a CHARACTERISTIC with more AXIS_DESCRs was already reported above
+                if let Some(Some(axis_pts_dim)) = axis_refs.get(idx) {
                     // the compu method is optional, it could be set to NO_COMPU_METHOD
                     let opt_compu_method = module.compu_method.get(&axis_descr.conversion);
                     let calculated_limits =
@@ -572,7 +573,7 @@ fn check_characteristic_common(
                         line,
                         description: format!(
                             "Referenced RECORD_LAYOUT {rl_name} does not have AXIS_PTS_{}.",
-                            axis_pts_names[idx]
+                            axis_pts_names.get(idx).unwrap_or(&"?")
                         ),
                     });
                 }
